@@ -734,6 +734,18 @@ func (env *SpecEnv) evalCall(x *ast.CallExpr) TV {
 			return boolTV(and(not(eq(iv.tag, "0")), vc.implementsTerm(iv.tag, t)))
 		}
 		return boolTV(eq(iv.tag, fmt.Sprint(vc.tid(t))))
+	case "tagof":
+		v := env.evalTV(x.Args[0])
+		if iv, ok := v.v.(IfaceV); ok {
+			return TV{IntV{iv.tag}, basicT(types.Int)}
+		}
+		specErr("tagof on non-interface")
+	case "boxof":
+		v := env.evalTV(x.Args[0])
+		if iv, ok := v.v.(IfaceV); ok {
+			return TV{IntV{iv.box}, basicT(types.Int)}
+		}
+		specErr("boxof on non-interface")
 	case "isnil":
 		v := env.evalTV(x.Args[0])
 		if v.v == nil {
